@@ -85,6 +85,19 @@ def run(ctx, rep):
         return cache
 
     c06.rule_init(ctx, rep, scope=scope)  # (the constructors the Deserialize impls reach)
+    # "a *new* handle that is the sole owner": no method of the serde impls - the provided ones they may override included
+    # (`deserialize_in_place`) - writes into a payload that other handles may share, unless behind the Acquire uniqueness gate
+    from . import c03
+
+    def serde_members(F):
+        out = set()
+        for b in F.body_list:
+            im = b.get("impl") or {}
+            if (im.get("trait") or "").split("::")[-1] in ("Deserialize", "Serialize") and F.handle_name(im.get("self_ty", -1)):
+                out.add(b["key"])
+        return out | set(scope(F))
+
+    c03.rule_gate_for(ctx, rep, serde_members)
     seen_cfg = 0
     for tag, F, E in ctx.each():
         A = balance.analysis(tag, F, E)
